@@ -6,6 +6,7 @@
 #include <algorithm>
 #include <numeric>
 #include <set>
+#include <initializer_list>
 #include <cmath>
 #include <functional>
 
@@ -297,6 +298,58 @@ static void run_owning_refusing(const std::vector<long long>& seq, const char* f
    for (long long k : present) { auto* f = tree.find(k, FussyCmp{}); if (!f || f->key != k) { C.viol("owning-refusing:find", "an inserted key is not found after refused insertions", J0()); return; } }
 }
 
+// Owning flavour over element types for which the way the element is made from the key matters: a type with both a
+// converting constructor and an initializer-list constructor (std::vector is the everyday one), where `T(key)` and
+// `T{key}` are different elements. The container's contract is insert-or-find of the element made from the key, i.e.
+// the stored element is equivalent to the key it was inserted under: it is found again, an equal key adds nothing.
+struct Listy {
+   long long key; bool from_list;
+   explicit Listy(long long k) : key(k), from_list(false) {}
+   Listy(std::initializer_list<long long> l) : key(-(long long)l.size()), from_list(true) {}
+};
+struct ListyCmp {
+   int operator()(const Listy& a, long long k) const { return a.key < k ? -1 : (a.key > k ? 1 : 0); }
+   int operator()(const Listy& a, const Listy& b) const { return a.key < b.key ? -1 : (a.key > b.key ? 1 : 0); }
+};
+struct VecLenCmp {
+   int operator()(const std::vector<int>& a, int n) const { return (int)a.size() < n ? -1 : ((int)a.size() > n ? 1 : 0); }
+   int operator()(const std::vector<int>& a, const std::vector<int>& b) const { return a.size() < b.size() ? -1 : (a.size() > b.size() ? 1 : 0); }
+};
+static void run_owning_listy(const std::vector<long long>& seq, const char* family)
+{
+   auto& C = ctx();
+   auto J0 = [&] { return J().s("family", family).raw("seq", seq_json(seq)).str(); };
+   {
+      OCont<Listy> tree; std::map<long long, Listy*> first; Shape sh;
+      Validator<rb::node<Listy>, NodeCmp<Listy, ListyCmp>> val;
+      for (long long k : seq) {
+         Listy* p = tree.insert(k, ListyCmp{}); C.count("insertions_of_elements_with_a_list_constructor");
+         if (!p || p->key != k || p->from_list) { C.viol("owning-listy:element", "the stored element is not the element made from the key (T(key))", J0()); return; }
+         auto it = first.find(k);
+         if (it == first.end()) first[k] = p; else if (it->second != p) { C.viol("owning-listy:dup-address", "inserting an equal key did not return the existing element", J0()); return; }
+         if (tree.size() != (long long)first.size()) { C.viol("owning-listy:size", "size() != number of distinct keys", J0()); return; }
+         std::string e = val.validate(tree.get_root(), (long long)first.size(), sh); C.count("validations");
+         if (!e.empty()) { C.viol(std::string("owning-listy:shape:") + e.substr(0, 40), e, J0()); return; }
+      }
+      for (auto& [k, p] : first) if (tree.find(k, ListyCmp{}) != p) { C.viol("owning-listy:find", "an inserted key is not found", J0()); return; }
+   }
+   {
+      OCont<std::vector<int>> tree; std::map<int, std::vector<int>*> first; Shape sh;
+      Validator<rb::node<std::vector<int>>, NodeCmp<std::vector<int>, VecLenCmp>> val;
+      for (long long k : seq) {
+         const int n = (int)k;
+         std::vector<int>* p = tree.insert(n, VecLenCmp{}); C.count("insertions_of_elements_with_a_list_constructor");
+         if (!p || (int)p->size() != n) { C.viol("owning-listy:vector-element", "the stored vector is not vector(key)", J0()); return; }
+         auto it = first.find(n);
+         if (it == first.end()) first[n] = p; else if (it->second != p) { C.viol("owning-listy:vector-dup-address", "inserting an equal key did not return the existing element", J0()); return; }
+         if (tree.size() != (long long)first.size()) { C.viol("owning-listy:vector-size", "size() != number of distinct keys", J0()); return; }
+         std::string e = val.validate(tree.get_root(), (long long)first.size(), sh); C.count("validations");
+         if (!e.empty()) { C.viol(std::string("owning-listy:vector-shape:") + e.substr(0, 40), e, J0()); return; }
+      }
+      for (auto& [k, p] : first) if (tree.find(k, VecLenCmp{}) != p) { C.viol("owning-listy:vector-find", "an inserted key is not found", J0()); return; }
+   }
+}
+
 // Owning flavour over integer keys with duplicates allowed.
 static void run_owning_int(const std::vector<long long>& seq, const char* family, long long every, bool count_case)
 {
@@ -439,7 +492,7 @@ static void body(Ctx& C)
    C.assume("comparators supplied by the harness are total orders");
    C.assume("exhaustive only up to the stated bounds; longer sequences are sampled");
    for (int i = 0; i < 6; ++i) C.need(std::string("fixup_case_") + std::to_string(i));
-   C.need("wide_result_sequences"); C.need("intrusive_duplicates_offered"); C.need("rejected_nodes_offered_to_a_second_chain"); C.need("insertions_refused_by_the_element_constructor"); C.need("recycled_sole_members_inserted"); C.need("insertions_right_after_a_missed_lookup_through_the_same_object");
+   C.need("wide_result_sequences"); C.need("intrusive_duplicates_offered"); C.need("rejected_nodes_offered_to_a_second_chain"); C.need("insertions_refused_by_the_element_constructor"); C.need("insertions_of_elements_with_a_list_constructor"); C.need("recycled_sole_members_inserted"); C.need("insertions_right_after_a_missed_lookup_through_the_same_object");
 
    const int maxn = C.thorough ? 9 : 8;
    // -- all permutations of 1..n ------------------------------------------------------
@@ -467,6 +520,7 @@ static void body(Ctx& C)
                run_owning_int(s, "dupseq", 1, false);
                run_intrusive_dups(s, "dupseq");
                run_owning_refusing(s, "dupseq");
+               run_owning_listy(s, "dupseq");
                C.count("dup_sequences");
                C.eval(hash_bytes(std::string_view(reinterpret_cast<const char*>(s.data()), s.size() * sizeof(long long)), 7));
                if (len == 6 && alphabet == 5) C.sample(J().s("kind", "dup-sequence").raw("seq", seq_json(s)).str(), 3);
